@@ -125,6 +125,12 @@ T_C08_NoDupHandles == Observed => C08_NoDupHandles
 T_C08_FaultReportedOnce == Observed => (\A a, b \in 1..Len(St.faults) : (St.faults[a] = St.faults[b] /\ a # b) => St.everFaulted)
 \* the connection whose dispatch discovered the fault is re-routed; it is dropped only when no handle is left
 T_C08_Rerouted == Observed => St.droppedOther = <<>>
+\* AcceptDispatch.C08_NoLostIndex on the measured state: every worker index is in the rotation, or reported to the server
+\* and not yet replaced, or its replacement handle waits in the waker queue
+T_C08_NoLostIndex == (Observed /\ running) =>
+  \A i \in Workers : \/ (\E k1 \in 1..Len(St.handles) : St.handles[k1] = i)
+                      \/ (\E k2 \in 1..Len(St.cmdq) : St.cmdq[k2] = i)
+                      \/ (\E k3 \in 1..Len(St.wq) : St.wq[k3] = <<"WK", i>>)
 T_C08_ServiceResumes == (Observed /\ obs.ev = "step") => C03_Pred(obs.q)
 
 TraceAccepted ==
